@@ -26,18 +26,33 @@ fn mark_spans(evs: &mut [TracingEvent]) {
 /// a contextual parent is attached to the innermost guest span entered in the current lifetime
 /// (persist force-exits everything), when that span can be identified.
 fn attached_ok(steps: &[Step]) -> bool {
+    // a panic of the implementation or of the host under it is a failed check, not a crash of the run
+    std::panic::catch_unwind(|| attached_ok_inner(steps)).unwrap_or(false)
+}
+
+struct Forgotten(Option<TracingEventReceiver>);
+impl Drop for Forgotten {
+    fn drop(&mut self) {
+        std::mem::forget(self.0.take());
+    }
+}
+
+fn attached_ok_inner(steps: &[Step]) -> bool {
     let storage = SharedStorage::default();
     let subscriber = Registry::default().with(CaptureLayer::new(&storage));
     let mut expected: Vec<Option<Option<u64>>> = vec![]; // per accepted event: None = not checked
+    let mut undecodable = false;
     tracing::subscriber::with_default(subscriber, || {
         let mut md = PersistedMetadata::default();
-        let mut receiver = TracingEventReceiver::default();
+        // never dropped, not even by a panic unwinding through here: `Drop` calls into the host again
+        let mut receiver = Forgotten(Some(TracingEventReceiver::default()));
+        let mut restores = 0u32;
         // mirrors tracing-subscriber's SpanStack: re-entered ids are flagged as duplicates and skipped by `current`
         let mut epoch_stack: Vec<(u64, bool)> = vec![];
         for step in steps {
             match step {
                 Step::Recv(ev) => {
-                    let ok = receiver.try_receive(ev.clone()).is_ok();
+                    let ok = receiver.0.as_mut().unwrap().try_receive(ev.clone()).is_ok();
                     if !ok {
                         continue;
                     }
@@ -58,19 +73,24 @@ fn attached_ok(steps: &[Step]) -> bool {
                     }
                 }
                 Step::Persist { keep } => {
-                    md.extend(receiver.persist_metadata());
-                    let (spans, local) = receiver.persist();
-                    let text = serde_json::to_string(&spans).unwrap();
-                    let spans: PersistedSpans = serde_json::from_str(&text).unwrap();
+                    md.extend(receiver.0.as_ref().unwrap().persist_metadata());
+                    let (spans, local) = receiver.0.take().unwrap().persist();
+                    let Ok(spans) = json_roundtrip::<PersistedSpans>(&spans) else {
+                        undecodable = true;
+                        return;
+                    };
                     let local = if *keep { local } else { LocalSpans::default() };
-                    receiver = TracingEventReceiver::new(md.clone(), spans, local);
+                    restores += 1;
+                    receiver.0 = Some(restore_receiver(restores, md.clone(), spans, local));
                     epoch_stack.clear();
                 }
                 Step::Drop => {}
             }
         }
-        std::mem::forget(receiver);
     });
+    if undecodable {
+        return false;
+    }
     let storage = storage.lock();
     if storage.all_events().len() != expected.len() {
         return false;
